@@ -9,7 +9,7 @@ Mirrors, branch for branch,
 * `datetime.date.toordinal` / `weekday` of CPython (`_ymd2ord`, `_days_before_year`, `_days_before_month`).
 
 Tables (`DateRules`) are parameters; the shipped ones are in `Model/DateTables` (from `Gen/DateRules`).
-Python partiality is explicit (`Except Crash`): `fmts[fields]` → `KeyError`, `fmt.index("[")` → `ValueError`,
+Python partiality is explicit (`Except Crash`): `fmts[fields]` → `KeyError`,
 `{…}[m[2]]` → `KeyError`, list subscripts → `IndexError`.  What depends on the wall clock
 (`datetime.datetime.today()`) is the explicit outcome `Out.today`. -/
 namespace Pyrealb.Date
@@ -192,16 +192,26 @@ def render (r : DateRules) (dt : DateTime) : List Match → Str → Except Crash
       | .error e => .error e
       | .ok v => render r dt ms (res ++ (pre ++ v))
 
-/-- `fmt[fmt.index("["):]` -/
-def dropDet : Str → Except Crash Str
-  | [] => .error .valueError
-  | c :: cs => if c = '[' then .ok (c :: cs) else dropDet cs
+/-- `fmt[idx:]` for `idx = fmt.find("[")`, `none` when `idx < 0` -/
+def dropToBracket : Str → Option Str
+  | [] => none
+  | c :: cs => if c = '[' then some (c :: cs) else dropToBracket cs
+
+/-- the `det:False` treatment: `idx=fmt.find("[")`; `fmt[idx:]` if `idx>=0`, else `fmt[fmt.find(" ")+1:]`
+    (without a space `find` is −1 and the whole format is kept) -/
+def dropDet (fmt : Str) : Str :=
+  match dropToBracket fmt with
+  | some x => x
+  | none =>
+    match splitAt1 ' ' fmt with
+    | some (_, rest) => rest
+    | none => fmt
 
 /-- the format selected by `interpret(fields)` after the `det` treatment -/
 def selectFmt (r : DateRules) (nat det : Bool) (fields : Str) : Except Crash Str :=
   match getKey fields (if nat then r.natural else r.nonNatural) with
   | .error e => .error e
-  | .ok fmt => if !det then dropDet fmt else .ok fmt
+  | .ok fmt => .ok (if !det then dropDet fmt else fmt)
 
 /-- the local function `interpret(fields)` of `dateFormat` -/
 def interpret (r : DateRules) (dt : DateTime) (nat det : Bool) (fields : Str) : Except Crash Str :=
